@@ -44,7 +44,7 @@ P = {
          "Complete enumeration; no reference table.", "Letter-key definition admits national letters and excludes ß/?, ù/%, é/2.", "DESIGN.md 7/C10"),
  "C11": ("exploration", "exhaustive table sweep 30 layout objects x 124 keys x 2 modes x 512 modifier values partitioned into the 16/32 abstract classes (class-mates must agree); five public predicates on all 512 values against boolean formulas",
          "Complete enumeration.", "Trusted: R-PRED (common.rs r_*), five one-line formulas from the property text.", "DESIGN.md 7/C11"),
- "C12": ("exploration", "exhaustive search over 30 layout objects x 124 keys x 3 plain levels for a witness of each of the 95 printable ASCII characters; thorough re-types every character through EventDecoder key events",
+ "C12": ("exploration", "exhaustive search over 30 layout objects x 2 Ctrl modes x 124 keys x 3 plain levels for a witness of each of the 95 printable ASCII characters; thorough re-types every character through EventDecoder key events",
          "Existence is decided by complete enumeration of the search space.", "Levels: no modifier, left Shift, right Alt (NumLock in its initial state).", "DESIGN.md 7/C12"),
  "C13": ("model_checking", "exhaustive enumeration of 3 prefix tables x 130 translatable Set 2 codes x {make,break} through both real decoders under the i8042 translation table, and conversely all Set 1 codes against their pre-images; explicit-state BFS (own + stateright) of a pair of real Keyboards fed the Set 2 stream and its translation (242 key sequences, 218 glitch variants with a stray bit + clear() before the last byte, ~320 uncompared noise sequences), over all 512 modifier states",
          "Table level: complete. End-to-end: closed search of the pair system over press/release of every key expressible in both sets (quick: 2 layouts x 1 mode; thorough: 10 layouts x 2 modes).",
